@@ -24,6 +24,14 @@ pub fn machinery(msg: impl AsRef<str>) -> ! {
     std::process::exit(EXIT_MACHINERY);
 }
 
+/// Run an engine's main body; a panic that escapes it is a machinery failure with its message
+/// (exit 2), not a silent exit 101.
+pub fn guard_main(f: impl FnOnce()) {
+    if let Err(p) = catch(f) {
+        machinery(format!("uncaught panic in the harness: {p}"));
+    }
+}
+
 /// Run `f` under catch_unwind, returning the panic message on panic.
 pub fn catch<R>(f: impl FnOnce() -> R) -> Result<R, String> {
     match std::panic::catch_unwind(std::panic::AssertUnwindSafe(f)) {
